@@ -221,7 +221,7 @@ ALL = ["C%02d" % i for i in range(1, 19)]
 # what the later rounds of seeded changes and refactorings added to each claim (appended to the text above)
 ADDED = {
     "C02": " Also states the feasible sets as each round builds them: the charge met exactly in the human rounds, demand ceilings and never-rising "
-           "feed/biofuel totals for every month class of the feed round.",
+           "feed/biofuel totals for every month class of the feed round; the resource balances (C02.FEAS_*); the feed objective runs over every month.",
     "C03": " Call sites are read by parameter (positional or keyword), construction helpers and dispatch helpers are looked through, and the bump's "
            "(series, ceiling) slots are found by evaluating it with a zero request.",
     "C04": " The extractor and the interpreter's two mapping methods are evaluated (loops over tables of foods, setattr and spread argument lists read "
@@ -230,15 +230,18 @@ ADDED = {
            "m's slaughter); hidden state of process-wide objects is reported.",
     "C06": " The below-zero clamp is accepted only on paths whose conditions make the unslaughtered herd negative; the labour budget is evaluated on a "
            "small mixed herd.",
-    "C07": " The priority-ordered list must not be reordered in place by any routine it is handed to (two levels).",
+    "C07": " The priority-ordered list must not be reordered in place by any routine it is handed to (two levels); the requirement is reset on every path; "
+           "the ruminant list is decided for every digestion type of the shipped species table.",
     "C08": " Whole-array (vectorised) forms are decided by generic-entry evaluation against the documented piecewise functions; the supply modules keep "
            "no state between calls (class/module-level arrays included, writes through aliases); the cultivated-area ramp is the documented one.",
     "C09": " A country without cropland has a zero greenhouse share; element types are inferred (integer results of np.piecewise / integer arrays that "
            "receive fractional values are reported).",
-    "C10": " No class derived from UnitConversions replaces a conversion routine with logic of its own.",
+    "C10": " No class derived from UnitConversions replaces a conversion routine with logic of its own; every listed unit is tried as the operand's own; "
+           "the factors do not depend on the fat/protein inclusion flags.",
     "C11": " min_elementwise is evaluated (every nutrient of the result is the smaller operand's on every path, whatever the inclusion flags); the "
            "label transformers compute label k from label k only; rounding spellings are normalised before the two arms of a predicate are compared.",
-    "C12": " In every stock balance the uses stand with the end-of-month stock against the stock carried in (also in months without a supply term).",
+    "C12": " In every stock balance the uses stand with the end-of-month stock against the stock carried in (also in months without a supply term); waste "
+           "monotonicity is read per unit of supply; the LP takes no number from the process-wide conversion settings.",
     "C13": " The country-specific nuclear-winter setters are evaluated (ratio of year k = 1 + the row's change of year k); table-driven dispatch and "
            "dict.update are read like the if/elif and store forms; a setter that only hands over to another setter is a setter of that family.",
     "C14": " One-level copies of shared nested containers, process-wide objects that keep containers, and containers carried from one iteration of the "
@@ -249,7 +252,7 @@ ADDED = {
            "returned monthly constants carry; every potential increase of the bump is within the head-room of its series on every path.",
 }
 ROBUST = (" The rules read a canonical form of the syntax trees (comparison orientation, if/else polarity, else-after-return, keyword/positional "
-          "arguments, range(0, n), method values) and statement-level inlined helpers, so behaviour-preserving rewrites do not change the verdict "
+          "arguments, range(0, n), method values) named tuples, tuple parameters; renamed parameters and methods are read under the names of the reference tree) and statement-level inlined helpers, so behaviour-preserving rewrites do not change the verdict "
           "(168 sub-agent refactorings, corrected twins of the seeded vectorisations and 18 kinds of whole-tree probes are replayed by the thorough tier).")
 
 
